@@ -10,9 +10,9 @@ Line-protocol driver of the C15 models (stateless: every line is a whole case).
        -> ok remaining=.. made=<none | v.chunk.consumers,..> panic=..                   or   stuck@<k>
     prog <repaired> <ratRepaired> <content hex> ; <expr, postfix> ; <method>
        expr:   b.err<k> b.bytes b.rat b.rd.<q> b.ch.<q>  (q = g | c | e<k>)
-               cs.<l|r>.<d|r>  cc.<l|r>  wt.<0|k>  eh
-       method: size | iw | ra <off> <len> | proto <max> | bs <max> | cr <off> <all|close> | rdr <all|close> | discard
-       -> res=<ok:hex | unsound:hex | err:k | size:n | panic> eof=.. cerr=.. wterm=.. waited=.. closes=<n|->   or   buildpanic
+               cs.<l|r>.<d|r>  cc.<l|r>  wt.<0|k>  eh  rp.<l|r>.<d|r>.<0|k>
+       method: size | iw | ra <off> <len> | proto <max> | bs <max> | cr <off> <all|close|one> | rdr <all|close> | discard
+       -> res=<ok:hex | unsound:hex | err:k | size:n | panic> eof=.. cerr=.. wterm=.. waited=.. closes=<n|-> order=<c<t>,w<t>..|->   or   buildpanic
 -/
 open BB.Driver BB.Mux
 
@@ -131,6 +131,13 @@ def pushTok (stack : List BufExpr) (w : String) : Option (List BufExpr) :=
     match stack, r.toNat? with
     | e :: rest, some r => some (.withTask e (if r = 0 then none else some r) :: rest)
     | _, _ => none
+  | ["rp", side, sib, r] =>
+    match stack, parseSide side, r.toNat? with
+    | e :: rest, some sd, some r =>
+      let res := if r = 0 then none else some r
+      if sib == "d" then some (.replicate e sd .discard res :: rest)
+      else if sib == "r" then some (.replicate e sd .read res :: rest) else none
+    | _, _, _ => none
   | ["eh"] =>
     match stack with
     | e :: rest => some (.withErrorHandler e :: rest)
@@ -143,7 +150,8 @@ def parseExpr (ws : List String) : Option BufExpr :=
   | _ => none
 
 def parseAll (w : String) : Option Bool :=
-  if w == "all" then some true else if w == "close" then some false else none
+  -- `one`: a single Read, then Close: observed like `close` (the chunk is not part of the observation)
+  if w == "all" then some true else if w == "close" || w == "one" then some false else none
 
 def parseMethod : List String → Option Method
   | ["size"] => some .getSizeBytes
@@ -182,8 +190,13 @@ def doProg (args : List String) : String :=
       if rep > 1 || rat > 1 then "bad-op" else
       let env : Env := { d := d, repaired := rep == 1, ratRepaired := rat == 1 }
       let cl := match closes env e with | some n => toString n | none => "-"
+      let order := match build env e 0 with
+        | some (b, _) =>
+          let evs := (events b).map fun (ev : Ev) => match ev with | Ev.closed t => s!"c{t}" | Ev.wait t => s!"w{t}"
+          if evs.isEmpty || m == Method.getSizeBytes then "-" else ",".intercalate evs
+        | none => "-"
       match exec env e m with
-      | some o => showOut m o ++ s!" closes={cl}"
+      | some o => showOut m o ++ s!" closes={cl} order={order}"
       | none => "buildpanic"
     | _, _, _, _, _ => "bad-op"
   | _ => "bad-op"
